@@ -35,7 +35,8 @@ func init() {
 	Register(&Prop{ID: "C32", Gen: c32Gen, New: func() Runner { return &c32Runner{} }})
 }
 
-var c32Live *network.VerifC32Session
+// sessions alive in the current case (disposed when the next case starts)
+var c32LiveAll []*network.VerifC32Session
 
 var (
 	c32Keys   = map[int]*crypto.PrivateKey{}
@@ -106,7 +107,16 @@ func c32Pub(tok string) ([]byte, int, bool) {
 	return nil, 0, false
 }
 
+type c32Existing struct {
+	s   *network.VerifC32Session
+	key int
+	id  []byte
+}
+
 type c32Runner struct {
+	started  bool
+	existing []c32Existing // peers of this case that were handed over and stay connected
+	prev     []byte        // secret of the previous session of this case
 	s      *network.VerifC32Session
 	w      module.Wallet
 	in     bool
@@ -126,6 +136,11 @@ func (r *c32Runner) content(tok string) ([]byte, bool) {
 			return []byte("c32-no-secret-yet"), true
 		}
 		return x, true
+	case tok == "p":
+		if r.prev == nil {
+			return []byte("c32-no-previous-session"), true
+		}
+		return r.prev, true
 	case tok == "o":
 		if r.other == nil {
 			r.other = network.VerifC32OtherSecret()
@@ -334,6 +349,25 @@ func (r *c32Runner) deliver(o *Oracle, sub uint16, payload []byte, what string, 
 	} else if proof && inSeq && !(r.in && pubKey == 0) {
 		o.Check(false, "c32-valid-proof-rejected", "valid key/signature over this session's secret rejected: %s", out)
 	}
+	closedNow, _, _, idNow, _, _, _ := r.s.State()
+	if !handed {
+		// failing / undecided branches: the next handler has seen nothing of this peer
+		o.Check(r.s.HandOverCount() == 0 && r.s.NextCloseCount() == 0, "c32-failed-peer-reached-next-handler",
+			"next handler saw onPeer %d / onClose %d for a peer that was not handed over", r.s.HandOverCount(), r.s.NextCloseCount())
+		o.Check(idNow == nil || closedNow, "c32-id-on-open-unverified-peer", "open, not handed-over peer carries id %x", idNow)
+	}
+	for _, e := range r.existing {
+		ec, eh, eid, _, _, _, _ := e.s.State()
+		o.Check(!ec && eh && bytes.Equal(eid, e.id) && e.s.NextCloseCount() == 0, "c32-existing-peer-disturbed",
+			"existing peer k%d disturbed by another session (closed=%v handed=%v)", e.key, ec, eh)
+		if isSig && pubKey == e.key {
+			if handed {
+				o.Count("claimed-existing-id-accepted-with-proof")
+			} else if closedNow {
+				o.Count("claimed-existing-id-rejected")
+			}
+		}
+	}
 	return out
 }
 
@@ -387,12 +421,23 @@ func (r *c32Runner) Step(t []string, o *Oracle) string {
 		if err != nil {
 			panic(err)
 		}
-		r.w, r.in, r.other, r.secure, r.aead = w, t[1] == "1", nil, false, 0
-		if c32Live != nil {
-			c32Live.Dispose()
+		if !r.started {
+			for _, old := range c32LiveAll {
+				old.Dispose()
+			}
+			c32LiveAll, r.started = nil, true
 		}
+		if r.s != nil {
+			r.prev = r.s.LocalExtra()
+			closed, handed, hid, _, _, _, _ := r.s.State()
+			if handed && !closed {
+				// stays connected: an "existing peer" for the sessions that follow
+				r.existing = append(r.existing, c32Existing{r.s, c32IDs[string(hid)], hid})
+			}
+		}
+		r.w, r.in, r.other, r.secure, r.aead = w, t[1] == "1", nil, false, 0
 		r.s = network.VerifC32NewSession(w, r.in)
-		c32Live = r.s
+		c32LiveAll = append(c32LiveAll, r.s)
 		return r.render(o)
 	case "secreq":
 		if len(t) != 4 || r.s == nil {
@@ -593,6 +638,34 @@ func c32Gen(g *Gen) {
 		}
 		if g.Intn(4) == 0 {
 			noise() // after the decision: must be ignored ("done")
+		}
+		if g.Intn(3) == 0 {
+			// another connection claims the identity of the peer of the first session
+			in2 := g.Intn(2)
+			g.Emit("sess %d", in2)
+			if in2 == 1 {
+				g.Emit("secreq %s %s ok", []string{"1", "3"}[g.Intn(2)], []string{"1", "2", "3"}[g.Intn(3)])
+			} else {
+				g.Emit("secresp %d %d ok 0", g.Pick(1, 3), g.Pick(1, 2, 3))
+			}
+			form := string("rsv"[g.Intn(3)])
+			sig := []string{
+				fmt.Sprintf("g%d.p.%s", k, form), // replay of the signature of the first session
+				fmt.Sprintf("g%d.p.%s", k, form),
+				fmt.Sprintf("g%d.o.%s", k, form),
+				fmt.Sprintf("g%d.t.%s", k+1, form), // own key, victim's public key
+				"z", "b65", "b64",
+				fmt.Sprintf("g%d.t.%s", k, form), // the peer itself reconnecting
+			}[g.Intn(8)]
+			pub := fmt.Sprintf("k%d%c", k, "cuh"[g.Intn(3)])
+			if in2 == 1 {
+				g.Emit("sigreq %s %s", pub, sig)
+			} else {
+				g.Emit("sigresp %s %s 0", pub, sig)
+			}
+			if g.Intn(3) == 0 {
+				noise()
+			}
 		}
 		g.Emit("reset")
 	}
